@@ -431,7 +431,7 @@ def lattice_points(ctx):
         for p in lattice.product(a):
             pts.append(dict(base, **p))
         # one-sided time ranges and a negative offset
-        d = [("crop", [(2.0, None), (None, 3.0), (1.5, 4.0)]),
+        d = [("crop", [None, (2.0, None), (None, 3.0), (1.5, 4.0)]),
              ("t_offset", [0.0, -0.26, 0.125, 1.0]),
              ("t_max_diff", [0.01, 0.3]),
              ("relation", ["full", "trans_part"]),
